@@ -652,8 +652,8 @@ func (s String) M__contains__(item Object) (Object, error) {
 func (s String) Count(args Tuple) (Object, error) {
 	var (
 		pysub Object
-		pybeg Object = Int(0)
-		pyend Object = Int(s.len())
+		pybeg Object = None
+		pyend Object = None
 		pyfmt        = "s|ii:count"
 	)
 	err := ParseTuple(args, pyfmt, &pysub, &pybeg, &pyend)
@@ -661,23 +661,18 @@ func (s String) Count(args Tuple) (Object, error) {
 		return nil, err
 	}
 
-	var (
-		beg  = int(pybeg.(Int))
-		end  = int(pyend.(Int))
-		size = s.len()
-	)
-	if beg > size {
-		beg = size
+	size := s.len()
+	beg, end, err := sliceBounds(pybeg, pyend, size)
+	if err != nil {
+		return nil, err
 	}
-	if end < 0 {
-		end = size
-	}
-	if end > size {
-		end = size
+	if beg > end {
+		// nothing is found in an empty range, not even ""
+		return Int(0), nil
 	}
 
 	var (
-		str = string(s.slice(beg, end, s.len()))
+		str = string(s.slice(beg, end, size))
 		sub = string(pysub.(String))
 	)
 	return Int(strings.Count(str, sub)), nil
@@ -686,8 +681,8 @@ func (s String) Count(args Tuple) (Object, error) {
 func (s String) find(args Tuple) (Object, error) {
 	var (
 		pysub Object
-		pybeg Object = Int(0)
-		pyend Object = Int(s.len())
+		pybeg Object = None
+		pyend Object = None
 		pyfmt        = "s|ii:find"
 	)
 	err := ParseTuple(args, pyfmt, &pysub, &pybeg, &pyend)
@@ -695,31 +690,25 @@ func (s String) find(args Tuple) (Object, error) {
 		return nil, err
 	}
 
-	var (
-		beg  = int(pybeg.(Int))
-		end  = int(pyend.(Int))
-		size = s.len()
-	)
-	if beg > size {
-		beg = size
+	size := s.len()
+	beg, end, err := sliceBounds(pybeg, pyend, size)
+	if err != nil {
+		return nil, err
 	}
-	if end < 0 {
-		end = size
-	}
-	if end > size {
-		end = size
+	if beg > end {
+		// nothing is found in an empty range, not even ""
+		return Int(-1), nil
 	}
 
 	var (
-		off = s.slice(0, beg, s.len()).len()
-		str = string(s.slice(beg, end, s.len()))
+		str = string(s.slice(beg, end, size))
 		sub = string(pysub.(String))
 		idx = strings.Index(str, sub)
 	)
 	if idx < 0 {
 		return Int(idx), nil
 	}
-	return Int(off + String(str[:idx]).len()), nil
+	return Int(beg + String(str[:idx]).len()), nil
 }
 
 func (s String) Split(args Tuple, kwargs StringDict) (Object, error) {
